@@ -28,6 +28,10 @@ RatLe(a, b)  == a[1] * b[2] <= b[1] * a[2]          \* both denominators positiv
 RatLt(a, b)  == a[1] * b[2] < b[1] * a[2]
 IsRat(a)     == a[2] > 0
 Whole(n)     == <<n, 1>>
+\* the normal form in which the driver sends a number (fractions.Fraction): lowest terms, positive denominator
+RECURSIVE Gcd(_, _)
+Gcd(x, y)    == IF y = 0 THEN x ELSE Gcd(y, x % y)
+Reduced(r)   == LET g == Gcd(Abs(r[1]), r[2]) IN <<r[1] \div g, r[2] \div g>>
 
 \* ------------------------------------------------------------------------------ whole years -
 Shift(o, y) == AddYears(o, y)
